@@ -68,6 +68,9 @@ async fn run_command(
     cmd.args(program_args);
     cmd.stdout(std::process::Stdio::piped());
     cmd.stderr(std::process::Stdio::piped());
+    // A call that hits its timeout is dropped by the tool runner: the shell must not go on
+    // changing the workspace after the call has ended and the workspace lock is released.
+    cmd.kill_on_drop(true);
 
     if let Some(cwd) = args.cwd.as_deref() {
         match resolve_path(&config.workspace_root, cwd) {
